@@ -57,6 +57,7 @@ func c02Menu(thorough bool) []enga.ABlock {
 		ev(enga.Event{Kind: "tx:process", N: 1}),
 		ev(enga.Event{Kind: "req:removevoter"}),
 		ev(enga.Event{Kind: "tx:consolidation"}),
+		ev(enga.Event{Kind: "tx:consolidation", Var: "withhold"}), // a collected vote that is not submitted yet
 		ev(enga.Event{Kind: "tx:replay-consolidation", Var: "unchanged"}),
 		ev(enga.Event{Kind: "tx:replay-consolidation", Var: "rewrite-context"}),
 	}
@@ -96,14 +97,23 @@ func runC02(r *mc.Run) {
 		r.SetBudget(170 * 1e9)
 	}
 	r.Bounds["depth_blocks"] = depth
-	r.Rule = "tree search over block histories of the real application (relayer proposer + 1 voter, electing period 6 s): fresh voted messages (block hashes, new key, process withdrawal), voted messages that fail after the signature check, non-voted messages, elections, membership requests, two voted transactions in one block (chained and same-sequence), and every vote produced earlier in the history re-presented unchanged / with the claimed sequence, epoch and proposer rewritten / attached to another payload or action; oracle = reference sequence counter and randao chain; a failed transaction leaves relayer and bridge stores equal to the same block without that transaction"
+	r.Rule = "tree search over block histories of the real application (relayer proposer + 1 voter, and proposer alone; electing period 6 s): fresh voted messages (block hashes, new key, process withdrawal), voted messages that fail after the signature check, non-voted messages, elections, membership requests, two voted transactions in one block (chained and same-sequence), and every vote produced earlier in the history re-presented unchanged / with the claimed sequence, epoch and proposer rewritten / attached to another payload or action; oracle = reference sequence counter and randao chain; a failed transaction leaves relayer and bridge stores equal to the same block without that transaction"
 	r.Assumptions = []string{"the sender's account sequence (bumped by the ante handler for any included tx) is not part of the proposal's effect", "BLS unforgeability"}
-	root, err := enga.NewWorld(c08Cfg())
+	menu := c02Menu(r.Thorough())
+	for _, voters := range []int{1, 0} {
+		c02Explore(r, voters, depth, menu)
+	}
+	r.Sample(map[string]any{"history": aPath([]enga.ABlock{menu[2], menu[9], menu[13]})})
+}
+
+func c02Explore(r *mc.Run, voters, depth int, menu []enga.ABlock) {
+	cfg := c08Cfg()
+	cfg.Voters = cfg.Voters[:voters]
+	root, err := enga.NewWorld(cfg)
 	if err != nil {
 		panic(err)
 	}
 	defer root.Close()
-	menu := c02Menu(r.Thorough())
 	stores := []string{"relayer", "bitcoin"}
 	t := &enga.Tree{Run: r, Depth: depth,
 		Menu: func(w *enga.World, path []enga.ABlock) []enga.ABlock { return menu },
@@ -179,6 +189,16 @@ func runC02(r *mc.Run) {
 				}
 				ok := ti < len(res.TxOK) && res.TxOK[ti]
 				ti++
+				note := ""
+				if ti-1 < len(res.Notes) {
+					note = res.Notes[ti-1]
+				}
+				if note == "first-use" {
+					if ok {
+						r.Outcome("withheld-vote-first-use-accepted")
+					}
+					continue
+				}
 				if (e.Kind == "tx:replay" || e.Kind == "tx:replay-consolidation") && ok {
 					viol("reused-vote-accepted:"+e.Var, fmt.Sprintf("a previously produced vote was accepted again (%s)", e.Var))
 				}
@@ -200,7 +220,6 @@ func runC02(r *mc.Run) {
 		},
 	}
 	t.Explore(root)
-	r.Sample(map[string]any{"history": aPath([]enga.ABlock{menu[2], menu[9], menu[13]})})
 	_ = sim.FaultNone
 }
 
